@@ -61,6 +61,59 @@ def extra_c14(tier, seed, workdir, sh, GH, GM):
                  stats={"varint_values_compared": evals, "varint_shards": len(rows)})]
 
 
+def extra_c09(tier, seed, workdir, sh, GH, GM):
+    """Source-level measurement for the 0.4.7 half of C09 (informative, never an alarm): how far the
+    format-relevant sources of the frozen grenad 0.4.7 are from /repo's working tree, after removing
+    tests, comments, cfg(grenad_verif) hooks and purely cosmetic rewrites. 0 differing lines for a file
+    means the modelled code IS the 0.4.7 code there, so the theorems about the model apply to it."""
+    import glob, re
+    cands = glob.glob(os.path.expanduser("~/.cargo/registry/src/*/grenad-0.4.7/src"))
+    if not cands:
+        return []
+    old = cands[0]
+    files = ["varint.rs", "block_writer.rs", "block.rs", "writer.rs", "metadata.rs", "compression.rs", "count_write.rs",
+             "reader/reader_cursor.rs", "reader/mod.rs"]
+
+    def norm(path):
+        try:
+            src = open(path).read()
+        except OSError:
+            return None
+        src = src.split("#[cfg(test)]")[0]
+        out, skip, depth = [], False, 0
+        for line in src.splitlines():
+            t = line.strip()
+            if "cfg(grenad_verif)" in t:
+                skip, depth = True, 0
+                continue
+            if skip:
+                depth += line.count("{") - line.count("}")
+                if depth <= 0 and ("}" in line or ";" in line):
+                    skip = False
+                continue
+            if not t or t.startswith("//") or t.startswith("#["):
+                continue
+            t = re.sub(r"//.*$", "", t).strip()
+            t = t.replace("u32::max_value()", "u32::MAX").replace("crate::Result<", "Result<").replace(", Error>", ">")
+            t = t.replace("last_key.as_slice()", "last_key")
+            if t:
+                out.append(t)
+        return out
+
+    stats, sample = {}, {}
+    import difflib
+    for f in files:
+        a, b = norm(os.path.join(old, f)), norm(os.path.join("/repo/src", f))
+        if a is None or b is None:
+            continue
+        d = [l for l in difflib.unified_diff(a, b, lineterm="", n=0) if l[:1] in "+-" and l[:3] not in ("+++", "---")]
+        stats["interop_source_diff_lines:" + f] = len(d)
+        if d:
+            sample[f] = d[:6]
+    return [dict(evaluations=len(files), findings=[], nontrivial=[("interop-src", f) for f in files],
+                 samples=[{"grenad_0_4_7_vs_working_tree_non_cosmetic_diff": sample or "none"}], stats=stats)]
+
+
 def extra_c17(tier, seed, workdir, sh, GH, GM):
     """Pointer-level half of C17 (explored, not proved): the reduced sorter / reader scenarios of
     miri/ under Miri (both tiers: ~10 s warm, ~1 min when the Miri sysroot must be built)."""
@@ -116,7 +169,7 @@ PROPS["C05"] = dict(module="Grenad.Props.C05", streams={"iter": (640, 19200)}, r
 PROPS["C06"] = dict(module="Grenad.Props.C06", streams={"merge": (1280, 38400)}, rules={"ops": ["merge", "mergew"], "calls": True})
 PROPS["C07"] = dict(module="Grenad.Props.C07", streams={"sorter": (960, 28800)}, rules={"ops": ["sfinish"], "calls": True})
 PROPS["C08"] = dict(module="Grenad.Props.C08", streams={"sorter": (960, 28800)}, rules={"ops": ["sins", "snew"], "sorter_bounds": True})
-PROPS["C09"] = dict(module="Grenad.Props.C09", streams={"write": (640, 19200)}, rules={"ops": ["finish", "interop", "file"], "blocks": True, "finish_must_succeed": True})
+PROPS["C09"] = dict(extra=extra_c09, module="Grenad.Props.C09", streams={"write": (640, 19200)}, rules={"ops": ["finish", "interop", "file"], "blocks": True, "finish_must_succeed": True})
 PROPS["C10"] = dict(module="Grenad.Props.C10", streams={"v1": (480, 14400)}, rules={"ops": ["file", "c", "range", "prefix"]})
 PROPS["C11"] = dict(module="Grenad.Props.C11", streams={"wio": (640, 19200), "rio": (480, 14400), "sorterio": (480, 14400)},
                     rules={"ops": ["ins", "finish", "sinkstate", "c", "range", "prefix", "file", "sfinish", "sins", "snew"]})
